@@ -402,11 +402,11 @@ def merge(chunks, real_text):
     for j, tok in enumerate(rt):
         out.append(real_text[pos:tok[2]])
         for t in before.get(j, []):
-            out.append(' ' + t + ' ')
+            out.append(' ' + t + ('\n' if '//' in t else ' '))
         if j not in suppress:
             out.append(tok[1])
         for t in after.get(j, []):
-            out.append(' ' + t + ' ')
+            out.append(' ' + t + ('\n' if '//' in t else ' '))
         pos = tok[3]
     out.append(real_text[pos:])
     return ''.join(out), conflicts
@@ -596,7 +596,12 @@ def annotate(real_text, plain_annotated):
         if i2 > i1:
             raise ExtractError('annotate: real tokens `%s` have no counterpart in the annotated text (use /*@was OLD*/NEW for a replacement)'
                                % ' '.join(texts(rt)[i1:i2]))
-        marks.append((at[j1][2], at[j2 - 1][3]))
+        e_ = at[j2 - 1][3]
+        eol = flat.find('\n', e_)
+        eol = len(flat) if eol < 0 else eol
+        if re.fullmatch(r'[ \t]*//[^\n]*', flat[e_:eol] or ''):
+            e_ = eol  # keep a trailing label comment `// [Cnn.x] ...` inside the inserted run
+        marks.append((at[j1][2], e_))
     # 2. print with markers, re-inserting the replacements
     events = [(s, 'ins_o') for s, e in marks] + [(e, 'ins_c') for s, e in marks]
     for off, old, new in repl:
